@@ -106,6 +106,8 @@ def trace_len(recipe):
 
 
 def cases(tier, rng):
+    for r in file_recipes(rng, 0):
+        yield "file-vanishes", [r, "vanish"]
     for r in recipes(tier, rng):
         for ca, sf, wc in faults_for(r, trace_len(r)):
             if r[0] == "sse" and wc is not None:
@@ -120,13 +122,45 @@ def search_cases(tier, rng, mism):
 
 
 def enc_case(case):
+    if len(case) == 2:
+        return [resp.encode(case[0]), resp.phrase_of(200, 206, 400, 416), "vanish"]
     r, ca, sf, wc = case
     status = r[1] if r[0] == "plain" else (r[3] if r[0] == "small" else (r[2] if r[0] in ("redirect", "stream", "sse") else None))
     return [resp.encode(r), resp.phrase_of(status) if status is not None else resp.phrase_of(200, 206, 400, 416),
             [ca] if ca is not None else [], [sf] if sf is not None else [], [wc] if wc is not None else []]
 
 
+def vanishing_response(recipe, iface):
+    """a FileResponse built from the stat of a file that is removed before the response is called"""
+    import os
+    import shutil
+    _, _, rng, ifr, data, cs, etag, lm, ctype, disp, boundary, name = recipe
+    src = c02.file_for(bytes(data))
+    d = os.path.join(os.path.dirname(src), "gone-" + iface)      # same base name: it shows in content-disposition
+    os.makedirs(d, exist_ok=True)
+    path = os.path.join(d, os.path.basename(src))
+    shutil.copy2(src, path)          # keeps the modification time, hence the validators
+    st = os.stat(path)
+    if iface == "wsgi":
+        import baize.wsgi.responses as M
+    else:
+        import baize.asgi.responses as M
+    M.random_choices = lambda pop, k: list(c02.BOUNDARY[:k])
+    r = M.FileResponse(path, content_type=ctype, download_name=name or None, chunk_size=cs, stat_result=st)
+    os.remove(path)
+    return r
+
+
 def impl(case):
+    if len(case) == 2:
+        r = case[0]
+        aevs, aout = resp.trace_asgi(vanishing_response(r, "asgi"),
+                                     util.http_scope(resp.method_of(r), headers=[(k.encode(), v.encode("latin-1")) for k, v in resp.req_headers(r)]))
+        wevs, wout = resp.trace_wsgi(vanishing_response(r, "wsgi"), util.wsgi_environ(resp.method_of(r), headers=resp.req_headers(r)))
+        for e in wevs:
+            if e[0] == "start":
+                e[2] = sorted([k.lower(), v] for k, v in e[2])
+        return [aevs, aout, wevs, wout]
     r, ca, sf, wc = case
     a_app = resp.build(r, "asgi")
     scope = util.http_scope(resp.method_of(r), headers=[(k.encode(), v.encode("latin-1")) for k, v in resp.req_headers(r)])
@@ -169,10 +203,18 @@ def developer_dirty(r):
 def oracle(case, obs):
     if obs and obs[0] == "driver-exception":
         return ("driver-exception-" + str(obs[1]), str(obs))
-    r, ca, sf, wc = case
+    if len(case) == 2:
+        r, ca, sf, wc = case[0], None, 0, None     # a fault: judged as a prefix
+    else:
+        r, ca, sf, wc = case
     aevs, aout, wevs, wout = obs
     faulty = ca is not None or sf is not None
     # ---- ASGI
+    vanish = len(case) == 2
+    if vanish and aout == "exc-FileNotFoundError":
+        aout = "send-raised"            # the file's own error propagated: judged like any fault (legal prefix)
+    if vanish and wout == "exc-FileNotFoundError":
+        wout = "producer-raised"
     if aout not in ("returned", "producer-raised", "send-raised"):
         return ("asgi-" + aout, "ASGI call ended with %s for %r" % (aout, r[0]))
     for e in aevs:
@@ -225,11 +267,15 @@ def oracle(case, obs):
 
 
 def nontrivial(case, obs):
+    if len(case) == 2:
+        return True
     r, ca, sf, wc = case
     return ca is not None or sf is not None or wc is not None or r[0] in ("stream", "sse", "file")
 
 
 def shrink(case):
+    if len(case) == 2:
+        return
     r, ca, sf, wc = case
     if ca is not None or sf is not None or wc is not None:
         yield [r, None, None, None]
